@@ -566,6 +566,19 @@ func checkLaws(c *Ctx, r *Rng, h *Helper, d *hdesc) {
 	if err != nil || !gvEqual(d, v, got) || (d.tag && tg != wantTag) {
 		c.Fail("spec", name+"_Set;Lookup", "law-set-get", fmt.Sprintf("tag=%d v=%x/%d", tag, v.B, v.U), fmt.Sprintf("tag=%d v=%x/%d err=%v", tg, got.B, got.U, err), "the value just set", "after a successful Set, Lookup returns the value with its tag")
 	}
+	// the packet owns what it stores: the caller may reuse the buffer it passed to Set
+	if len(v.B) > 0 && d.enc == 0 && (d.kind < 5 || d.kind > 8) {
+		keep := append([]byte{}, v.B...)
+		for i := range v.B {
+			v.B[i] ^= 0xFF
+		}
+		_, got2, err2 := h.Lookup(p, q)
+		copy(v.B, keep)
+		if err2 != nil || !gvEqual(d, GV{B: keep}, got2) {
+			c.Fail("spec", name+"_Set;Lookup", "law-owns-value", fmt.Sprintf("Set(%x), then the caller overwrites its buffer", keep), fmt.Sprintf("%x err=%v", got2.B, err2), hx(keep), "after a successful Set, Lookup returns the value that was set - also after the caller reused the slice it passed in")
+		}
+		c.TagOnly("law-owns-value")
+	}
 	if h.Gets != nil {
 		tags, vs, err := h.Gets(p, q)
 		if err != nil || len(vs) != 1 || !gvEqual(d, v, vs[0]) || (d.tag && (len(tags) != 1 || tags[0] != wantTag)) {
